@@ -373,8 +373,20 @@ def simulate(script: dict) -> SupRun:
     run = SupRun()
     run.script = script
     try:
-        args = types.SimpleNamespace(workers=script["workers"], max_fails=script["max_fails"], reload=False, no_gitignore=False)
-        manager = pm.ProcessManager(args=args, worker_function=lambda args: None, observer=None)  # type: ignore[arg-type]
+        # the manager's configuration comes from the real command-line parser of `taskiq worker`
+        from taskiq.cli.worker.args import WorkerArgs
+        try:
+            import contextlib
+            import io
+            with contextlib.redirect_stderr(io.StringIO()):
+                args = WorkerArgs.from_cli(["sim:broker", "--workers", str(script["workers"]), "--max-fails", str(script["max_fails"])])
+            manager = pm.ProcessManager(args=args, worker_function=lambda args: None, observer=None)  # type: ignore[arg-type]
+        except BaseException as exc:  # noqa: BLE001   (argparse exits with SystemExit when it rejects the command line)
+            run.end = "raised"
+            run.exc = "configuration rejected: " + type(exc).__name__
+            sim.rec("raise", exc=type(exc).__name__)
+            run.events = sim.events
+            return run
         sim.manager = manager
         try:
             run.ret = manager.start()
